@@ -326,8 +326,13 @@ def run(ctx):
         files = triggers.random_files(rng, tag="o%d" % i)
         more = triggers.random_files(rng, tag="p%d" % i)
         files.update({k: v for k, v in more.items() if k != ".thailint.yaml"})
+        # leak bait: each module aliases a library under the name the other uses for an unrelated parameter
+        files["src/bait_a.py"] = ("import re as rx\n\n\ndef scan_a(lines, pat):\n    out = []\n    for line in lines:\n        if pat.match(line):\n            out.append(line)\n    return out\n\n\n"
+                                  "def by_alias(lines):\n    return [line for line in lines if rx.match(\"x\", line)]\n")
+        files["src/bait_b.py"] = ("import re as pat\n\n\ndef scan_b(lines, rx):\n    out = []\n    for line in lines:\n        if rx.match(line):\n            out.append(line)\n    return out\n\n\n"
+                                  "def by_alias_b(lines):\n    return [line for line in lines if pat.match(\"y\", line)]\n")
         srcs = sorted(f for f in files if not f.startswith("."))
-        for cmd in ["dry", "stringly-typed", "magic-numbers", "nesting", "srp", "improper-logging", "unwrap-abuse", "file-header"]:
+        for cmd in ["dry", "stringly-typed", "magic-numbers", "nesting", "srp", "improper-logging", "unwrap-abuse", "file-header", "perf", "lbyl", "method-property"]:
             orders = []
             for _ in range(4 if ctx.quick else 12):
                 o = list(srcs)
